@@ -60,7 +60,7 @@ REG.add(Contract(
                'forall(k, 0, len(result), result[k].text == text.Q[k].text and result[k].position == k and '
                'result[k].cat == catc(text.Q[k].text))'),
              # which characters the tokenizer may drop is fixed by the property, not by the table
-             P(['C19'], 'only-NUL-and-DEL-are-ignorable',
+             P(['C19', 'C16', 'C08', 'C01'], 'only-NUL-and-DEL-are-ignorable',
                'forall(k, 0, len(result), implies(result[k].cat == CC.Ignored or result[k].cat == CC.Invalid, '
                'result[k].text == "\\x00" or result[k].text == "\\x7f"))')],
     loops={0: Loop(invariant=[A('inv', 'inv(text)'), A('cursor', 'text.i == _k and text.m == _k'),
